@@ -246,6 +246,11 @@ def thorough_extras(ctx, mod, pid):
             ctx.default_features, ctx.default_overflow, ctx.prefix = (), True, ''
     import mutate
     ms = [m for m in mutate.load_mutants() if pid in m['properties']]
+    # of the refactoring controls (every check must be silent on every one: `evx/mutate.py` runs that full cross product during
+    # development), the thorough tier of one property re-runs those written for the code this property is anchored in and those on
+    # which this property's check once raised a false alarm - the full product is 16 x 400+ extractions
+    if not os.environ.get('EVX_ALL_CONTROLS'):
+        ms = [m for m in ms if m.get('source') != 'refactors' or m.get('anchored') == pid or pid in (m.get('alarmed') or [])]
     import concurrent.futures
     with concurrent.futures.ThreadPoolExecutor(max_workers=8) as ex:
         results = list(ex.map(lambda m: mutate.run_one(m, only=pid), ms))
